@@ -13,6 +13,9 @@ import Rdm.Lemmas.BiasBAnchorRat
 import Rdm.Lemmas.BiasBAnchorTie
 import Rdm.Lemmas.BiasBAnchorFrame
 import Rdm.Spec.C19
+import Rdm.Lemmas.E2EBiasesState
+import Rdm.Lemmas.E2EBiasesParts
+import Rdm.Lemmas.E2EBiasesExample
 import Mathlib.Tactic.NormNum
 namespace Rdm.Props.C19
 open Rdm
@@ -431,5 +434,194 @@ theorem facts_fresh : (Rdm.Facts.staleFacts.all fun n => !["anchoringIdeal", "an
     "anchoringNewCriterion", "fatigueExp", "minAllowedWeight", "defaultBoundingScaling", "refImportanceRatio",
     "refRandomUniform", "refRandomWeighted", "wiringRefCriterionFactories", "choquetEps", "roundPrecision"].contains n) = true := by
   decide
+
+/-! ## END TO END: a fired anchoring inside a whole request
+
+The theorems above are about the components of one `Anchoring.Apply`.  Below they are lifted to responses of
+`decideWith` (Model/Decide.lean): every entry of `resp.biases` that carries an anchoring report — at any position of
+any bias list, whatever fired before and after, for all seven methods — is one `anchoringApply` on the state `s`
+it received (`E2EBFired`, Lemmas/E2EBiases.lean).  **Anchoring reads nothing from the request's state** (`original` is
+ignored by the code and by the model): anchoring alternatives, reference point, scaling, differences, the criteria
+ranking of the newCriterion applier and the parameters its listener extends are all those of the CURRENT state `s`
+(`anchoring_reads_only_the_state_received`).  So, unlike concealment and mixing (C18), nothing here is `_partial`. -/
+
+section e2e
+variable {α : Type} [Num α] {exp : α → α} {o : List (WCrit α) → List (WCrit α)} {req : Request α}
+  {g : Int → Draws α} {resp : Response α} {params s s' : DMP α} {chosen : List (Chosen α (BProps α))} {i : Nat}
+  {name : String} {prob : α} {q : AnchProps α} {r : AnchReport α}
+
+/-- **Every anchoring entry of a response that carries a report is one `Anchoring.Apply` on the state it
+    received.**  The reference criterion of the newCriterion applier is drawn from the stream of the applier's
+    `newCriterionRandomSeed`, the listener draws of the `ri`-th added criterion from that of `randomSeed + ri`. -/
+theorem fired_anchoring_is_one_apply (h : decideWith exp o req g = .ok resp)
+    (hi : resp.biases[i]? = some ⟨name, prob, some (.anchoring r)⟩) :
+    ∃ params chosen q s s',
+      E2EBFired exp g req resp params chosen i ⟨name, prob, .anch q⟩ (.anchoring r) s s' ∧
+      name = Facts.biasAnchoring ∧
+      anchoringApply exp choquetEpsOf s q (g (q.applier.params.seed "newCriterionRandomSeed"))
+        ((anchGenSeeds q).map g) = .ok (s', r) := by
+  obtain ⟨params, chosen, props, s, s', hf⟩ := e2eb_fired h hi
+  obtain ⟨hn, q, hp, ha⟩ := e2eb_fired_anchoring hf
+  dsimp only at hn hp
+  subst hp
+  exact ⟨params, chosen, q, s, s', hf, hn, ha⟩
+
+theorem fired_anchoring_apply
+    (hf : E2EBFired exp g req resp params chosen i ⟨name, prob, .anch q⟩ (.anchoring r) s s') :
+    anchoringApply exp choquetEpsOf s q (g (q.applier.params.seed "newCriterionRandomSeed"))
+      ((anchGenSeeds q).map g) = .ok (s', r) := by
+  obtain ⟨_, q', hp, ha⟩ := e2eb_fired_anchoring hf
+  dsimp only at hp
+  cases hp
+  exact ha
+
+/-- **a fired anchoring reads only the state it received**: the anchoring alternatives are fetched among the known
+    alternatives of `s`; the reported reference points are `referencePoints` of them over the criteria of `s`; the
+    reported scaling is that of the criteria and alternatives of `s`; the reported differences are those of the
+    alternatives of `s` to the reference points; then the configured applier runs on `s` -/
+theorem anchoring_reads_only_the_state_received
+    (hf : E2EBFired exp g req resp params chosen i ⟨name, prob, .anch q⟩ (.anchoring r) s s') :
+    ∃ b alts loss gain anch, anchoringAlternatives q = .ok alts ∧ parseAFun q.loss = .ok loss ∧
+      parseAFun q.gain = .ok gain ∧ fetchAnchoring s.all alts = .ok anch ∧ (∀ a ∈ anch, a.1 ∈ s.all) ∧
+      referencePoints q.refFn anch s.crit = .ok r.refPoints ∧ boundingOfProps q.applier.params = .ok b ∧
+      anchScaling s.crit s.all = .ok r.scaling ∧
+      calcDiffs exp s.all r.refPoints s.crit r.scaling loss gain = .ok r.diffs ∧
+      ((q.applier.fn = Facts.anchoringInline ∧
+          inlineApply s r.diffs b r.scaling q.applier.params = .ok (s', r.applier)) ∨
+       (q.applier.fn = Facts.anchoringNewCriterion ∧
+          newCriterionApply choquetEpsOf s r.diffs b r.scaling q.applier.params
+            (g (q.applier.params.seed "newCriterionRandomSeed")) ((anchGenSeeds q).map g) = .ok (s', r.applier))) := by
+  obtain ⟨b, hfront, happ⟩ := decideAnchoring_cases (fired_anchoring_apply hf)
+  obtain ⟨alts, loss, gain, anch, h1, h2, h3, h4, h5, h6, h7, h8⟩ := e2eb_anchoringFront_parts hfront
+  exact ⟨b, alts, loss, gain, anch, h1, h2, h3, h4, e2eb_fetchAnchoring_mem h4, h5, h6, h7, h8, happ⟩
+
+/-- `reference_point_values_are_values_of_anchoring_alternatives`, end to end: exactly one reference point is
+    reported, named after the strategy; each of its values is the value a known alternative OF THE STATE RECEIVED
+    (an anchoring alternative, with the values earlier biases left it) has for that criterion -/
+theorem reference_point_values_are_values_received
+    (hf : E2EBFired exp g req resp params chosen i ⟨name, prob, .anch q⟩ (.anchoring r) s s') :
+    ∃ rp, r.refPoints = [rp] ∧ rp.id = q.refFn ∧ ∀ kv ∈ rp.vals, ∃ a ∈ s.all, kv ∈ a.vals := by
+  obtain ⟨_, _, _, _, anch, _, _, _, _, hmem, href, _⟩ := anchoring_reads_only_the_state_received hf
+  obtain ⟨rp, h1, h2, h3⟩ := reference_point_values_are_values_of_anchoring_alternatives href
+  refine ⟨rp, h1, h2, ?_⟩
+  intro kv hkv
+  obtain ⟨a, ha, hk⟩ := h3 kv hkv
+  exact ⟨a.1, hmem a ha, hk⟩
+
+/-- the `inline` applier, end to end: criteria and method parameters are handed on untouched; every entry of the
+    reported differences (one per known alternative of `s`) yields a pair (new alternative, applied differences)
+    in which every criterion of the scaling is `bound(v + range·mean)` of the value `v` RECEIVED and the reported
+    applied difference is exactly new − old; the considered alternatives are replaced id by id, the others only
+    if asked -/
+theorem inline_anchoring_shifts_the_values_received_and_reports_new_minus_old
+    (hf : E2EBFired exp g req resp params chosen i ⟨name, prob, .anch q⟩ (.anchoring r) s s')
+    (hfn : q.applier.fn = "inline") :
+    s'.crit = s.crit ∧ s'.mp = s.mp ∧ (∃ l, r.applier = .inline l) ∧
+    ∃ b pairs, boundingOfProps q.applier.params = .ok b ∧ r.diffs.mapM (inlineOne b r.scaling) = .ok pairs ∧
+      updateAlts s.co (pairs.map (·.1)) = .ok s'.co ∧
+      (s'.nc = s.nc ∨ updateAlts s.nc (pairs.map (·.1)) = .ok s'.nc) ∧
+      ∀ pz ∈ r.diffs.zip pairs,
+        pz.2.1.id = pz.1.1.id ∧ pz.2.2.id = pz.1.1.id ∧
+        ∃ avg, arithmeticAverage pz.1.2 = .ok avg ∧
+          ∀ cs ∈ r.scaling, ∃ mean v, avg.get? cs.1 = some mean ∧ pz.1.1.vals.get? cs.1 = some v ∧
+            pz.2.1.vals.get? cs.1 = some (inlineValue b cs.2.2 v mean) ∧
+            pz.2.2.vals.get? cs.1 = some (inlineValue b cs.2.2 v mean - v) := by
+  obtain ⟨b, _, _, _, _, _, _, _, _, _, _, hb, hsc, _, happ⟩ := anchoring_reads_only_the_state_received hf
+  rcases happ with ⟨_, hin⟩ | ⟨hn, _⟩
+  · obtain ⟨hcr, hmp, hl, pairs, hp, hco, hnc⟩ := decideInlineApply_ok hin
+    have hnd : (r.scaling.map (·.1)).Nodup := by
+      unfold anchScaling at hsc
+      exact (decideAnchScaling_keys hsc (by simp [KMap.keys])).1
+    refine ⟨hcr, hmp, hl, b, pairs, hb, hp, hco, hnc, ?_⟩
+    intro pz hpz
+    have h1 := (mapM_ok hp).2 pz hpz
+    exact inline_applier_shifts_every_criterion_and_reports_new_minus_old h1 hnd
+  · rw [hfn] at hn
+    exact absurd hn (by decide)
+
+/-- `anchoring_with_the_new_criterion_applier_keeps_every_old_value`, end to end: one criterion is added per
+    reference point; the criteria handed on are the criteria RECEIVED followed by the added ones (fresh, pairwise
+    different ids); the split is the one received; every alternative handed on is an alternative RECEIVED with all
+    its values untouched and exactly the values of the added criteria appended -/
+theorem new_criterion_anchoring_keeps_every_value_received
+    (hf : E2EBFired exp g req resp params chosen i ⟨name, prob, .anch q⟩ (.anchoring r) s s')
+    (hfn : q.applier.fn = "newCriterion") (hne : req.chosen ≠ []) :
+    ∃ (ref : Crit α) (added : List (AddedAnch α)), r.applier = .newCriterion ref added ∧
+      added.length = r.refPoints.length ∧
+      s'.crit = s.crit ++ added.map (fun a => { id := a.id, type := ref.type, range := ref.range }) ∧
+      (added.map (·.id)).Nodup ∧ (∀ a ∈ added, a.id ∉ s.crit.map (·.id)) ∧
+      s'.co.map (·.id) = s.co.map (·.id) ∧ s'.nc.map (·.id) = s.nc.map (·.id) ∧
+      ∀ a' ∈ s'.co ++ s'.nc, ∃ a ∈ s.co ++ s.nc, a'.id = a.id ∧
+        ∃ news : KMap α, a'.vals = a.vals ++ news ∧ news.map (·.1) = added.map (·.id) := by
+  refine anchoring_with_the_new_criterion_applier_keeps_every_old_value (fired_anchoring_apply hf) hfn ?_
+  obtain ⟨_, _, hco, _⟩ := e2eb_fired_frame hf
+  intro e
+  have : s.co = [] := (List.append_eq_nil_iff.mp e).1
+  rw [this] at hco
+  exact hne hco.symm
+
+/-- the reference criterion of the newCriterion applier is a criterion RECEIVED (it is picked from the listener's
+    ranking of the state received) — in contrast to concealment and mixing (C18), which rank the request's state -/
+theorem new_criterion_anchoring_reference_criterion_is_a_criterion_received
+    (hf : E2EBFired exp g req resp params chosen i ⟨name, prob, .anch q⟩ (.anchoring r) s s')
+    (hfn : q.applier.fn = "newCriterion") :
+    ∃ ref added ranked, r.applier = .newCriterion ref added ∧ rankAsc choquetEpsOf s = .ok ranked ∧
+      ref ∈ ranked.map (·.crit) ∧ ref ∈ s.crit := by
+  obtain ⟨b, _, _, _, _, _, _, _, _, _, _, _, _, _, happ⟩ := anchoring_reads_only_the_state_received hf
+  rcases happ with ⟨hi, _⟩ | ⟨_, hnew⟩
+  · rw [hfn] at hi
+    exact absurd hi (by decide)
+  · obtain ⟨ref, added, hr, ⟨ranked, hrank, hmem⟩, _⟩ :=
+      new_criterion_applier_appends_the_added_criteria_and_keeps_old_values hnew
+    exact ⟨ref, added, ranked, hr, hrank, hmem, (BiasA.rankAsc_perm hrank).subset hmem⟩
+
+end e2e
+
+/-! ### the hypotheses are satisfiable: requests in which the anchoring is the second fired bias -/
+
+/-- fatigue fires, an entry does not fire, then an `inline` anchoring (nadir of alternative `a`, linear gain and
+    loss) fires on the state the fatigue handed on -/
+example : ∃ resp name prob r n0 p0 r0 params chosen q s s',
+    Rdm.decide id (e2ebExReq [e2ebExFatigue, e2ebExSkipped, e2ebExAnchInline]) e2ebExSeeds = .ok resp ∧
+    resp.biases[2]? = some ⟨name, prob, some (.anchoring r)⟩ ∧ resp.biases[0]? = some ⟨n0, p0, some r0⟩ ∧
+    E2EBFired id (genOf e2ebExSeeds) (e2ebExReq [e2ebExFatigue, e2ebExSkipped, e2ebExAnchInline]) resp params chosen 2
+      ⟨name, prob, .anch q⟩ (.anchoring r) s s' ∧ q.applier.fn = "inline" := by
+  obtain ⟨resp, name, prob, rp, hr, h2, hk, n0, p0, r0, h0⟩ := e2eb_firedWith
+    (r := Rdm.decide id (e2ebExReq [e2ebExFatigue, e2ebExSkipped, e2ebExAnchInline]) e2ebExSeeds)
+    (j := 0) (i := 2) (k := e2ebIsAnchoring) (by decide +kernel)
+  cases rp with
+  | anchoring r =>
+    obtain ⟨params, chosen, q, s, s', hf, _, _⟩ := fired_anchoring_is_one_apply hr h2
+    have hb := e2eb_fired_chosenAt hf
+    have hb' : e2ebChosenAt (e2ebExReq [e2ebExFatigue, e2ebExSkipped, e2ebExAnchInline]) 2 =
+        some ⟨Facts.biasAnchoring, 1, e2ebExAnchInline.props⟩ := rfl
+    rw [hb'] at hb
+    simp only [Option.some.injEq, Chosen.mk.injEq, e2ebExAnchInline, BProps.anch.injEq] at hb
+    obtain ⟨rfl, rfl, rfl⟩ := hb
+    exact ⟨resp, _, _, r, n0, p0, r0, params, chosen, _, s, s', hr, h2, h0, hf, rfl⟩
+  | _ => cases hk
+
+/-- … and a `newCriterion` anchoring (ideal of alternative `a`) as the second fired bias of a one-criterion
+    request (`List.mergeSort`, used by the criteria ranking, reduces in the kernel only on singletons) -/
+example : ∃ resp name prob r n0 p0 r0 params chosen q s s',
+    Rdm.decide id (e2ebExReq1 [e2ebExFatigue, e2ebExSkipped, e2ebExAnchNew]) e2ebExSeeds = .ok resp ∧
+    resp.biases[2]? = some ⟨name, prob, some (.anchoring r)⟩ ∧ resp.biases[0]? = some ⟨n0, p0, some r0⟩ ∧
+    E2EBFired id (genOf e2ebExSeeds) (e2ebExReq1 [e2ebExFatigue, e2ebExSkipped, e2ebExAnchNew]) resp params chosen 2
+      ⟨name, prob, .anch q⟩ (.anchoring r) s s' ∧ q.applier.fn = "newCriterion" ∧
+    (e2ebExReq1 [e2ebExFatigue, e2ebExSkipped, e2ebExAnchNew]).chosen ≠ [] := by
+  obtain ⟨resp, name, prob, rp, hr, h2, hk, n0, p0, r0, h0⟩ := e2eb_firedWith
+    (r := Rdm.decide id (e2ebExReq1 [e2ebExFatigue, e2ebExSkipped, e2ebExAnchNew]) e2ebExSeeds)
+    (j := 0) (i := 2) (k := e2ebIsAnchoring) (by decide +kernel)
+  cases rp with
+  | anchoring r =>
+    obtain ⟨params, chosen, q, s, s', hf, _, _⟩ := fired_anchoring_is_one_apply hr h2
+    have hb := e2eb_fired_chosenAt hf
+    have hb' : e2ebChosenAt (e2ebExReq1 [e2ebExFatigue, e2ebExSkipped, e2ebExAnchNew]) 2 =
+        some ⟨Facts.biasAnchoring, 1, e2ebExAnchNew.props⟩ := rfl
+    rw [hb'] at hb
+    simp only [Option.some.injEq, Chosen.mk.injEq, e2ebExAnchNew, BProps.anch.injEq] at hb
+    obtain ⟨rfl, rfl, rfl⟩ := hb
+    exact ⟨resp, _, _, r, n0, p0, r0, params, chosen, _, s, s', hr, h2, h0, hf, rfl, by decide⟩
+  | _ => cases hk
 
 end Rdm.Props.C19
